@@ -187,7 +187,7 @@ theorem split_status_roundtrip (s : Bool) (t : TypeId) (j : J) (a : Arg)
     | arr _ => cases h
     | obj kvs =>
       simp only at h
-      cases hf : kvs.find splitKey with
+      cases hf : kvs.findSplit with
       | none => simp [hf] at h
       | some v =>
         simp only [hf, Option.map_eq_some_iff] at h
@@ -216,7 +216,7 @@ theorem binding_roundtrip (t : TypeId) (a : Arg)
     | lit l =>
       dsimp only [splitOperandOk] at hw
       have := convert_encode t (.lit l) hw hi
-      simp only [dataOfBinding, Arg.isSplit, encodeArg, buildBinding, if_true, JKvs.find]
+      simp only [dataOfBinding, Arg.isSplit, encodeArg, buildBinding, if_true, JKvs.findSplit, isSplitKey_splitKey]
       simp only [encode] at this ⊢
       simp [convertSplit, splitSourceType, this]
     | arr xs =>
@@ -225,7 +225,7 @@ theorem binding_roundtrip (t : TypeId) (a : Arg)
       have : convert t (encode (.arr xs)) = some (normE (.arr xs)) := by
         simp only [convert, ofJ_encode _ hi, Option.map_some, erase_normE, fix_normE,
           fix_erase_wt_succ _ _ _ _ hw']
-      simp only [dataOfBinding, Arg.isSplit, encodeArg, buildBinding, if_true, JKvs.find]
+      simp only [dataOfBinding, Arg.isSplit, encodeArg, buildBinding, if_true, JKvs.findSplit, isSplitKey_splitKey]
       simp only [encode] at this ⊢
       simp [convertSplit, splitSourceType, this]
     | map k kvs =>
@@ -233,7 +233,7 @@ theorem binding_roundtrip (t : TypeId) (a : Arg)
       obtain ⟨hk, hv⟩ := hw
       subst hk
       simp only [intsOk] at hi
-      simp only [dataOfBinding, Arg.isSplit, encodeArg, buildBinding, if_true, JKvs.find, encode,
+      simp only [dataOfBinding, Arg.isSplit, encodeArg, buildBinding, if_true, JKvs.findSplit, isSplitKey_splitKey, encode,
         convertSplit_obj, ofJKvs_encodeKvs kvs hi, Option.map_some, eraseKvs_normEKvs,
         fixVals_normEKvs, fixVals_erase_wt kvs _ _ _ hv, normE]
 
@@ -276,12 +276,26 @@ whose values are converted at the parameter's type, whatever that type is. -/
 theorem split_over_map_values_at_param_type (t : TypeId) (kvs : JKvs) (a : Arg)
     (h : buildBinding true t (.obj (.cons splitKey (.obj kvs) .nil)) = some a) :
     ∃ es, ofJKvs kvs = some es ∧ a = .split (.map false (fixVals t.base t.arrayDim t.mapDim es)) := by
-  simp only [buildBinding, if_true, JKvs.find, convertSplit_obj] at h
+  simp only [buildBinding, if_true, JKvs.findSplit, isSplitKey_splitKey, convertSplit_obj] at h
   cases hk : ofJKvs kvs with
   | none => simp [hk] at h
   | some es =>
     simp only [hk, Option.map_some, Option.some.injEq] at h
     exact ⟨es, rfl, h.symm⟩
+
+/-- The split operand is found the way `json.Unmarshal` into `struct{Split … `json:"split"`}` finds
+it (audit C16-M4): keys are matched case-folded, and of several matching members the LAST wins:
+`{"split": [1], "SPLIT": [2], "x": 0}` splits over `[2]`; `{"Split": [1]}` is a split argument;
+`{"splat": [1]}` is not. -/
+theorem split_key_fold_last_wins :
+    (buildBinding true ⟨.scalar, 0, 0⟩ (.obj (.cons splitKey (.arr (.cons (.lit (.int 1)) .nil))
+      (.cons [0x53, 0x50, 0x4C, 0x49, 0x54] (.arr (.cons (.lit (.int 2)) .nil)) (.cons [0x78] (.lit (.int 0)) .nil))))).map Arg.printable
+      = some true
+    ∧ (JKvs.cons splitKey (J.arr (.cons (.lit (.int 1)) .nil))
+        (.cons [0x53, 0x50, 0x4C, 0x49, 0x54] (.lit (.int 2)) .nil)).findSplit.isSome = true
+    ∧ isSplitKey [0x53, 0x70, 0x6C, 0x69, 0x74] = true ∧ isSplitKey [0xC5, 0xBF, 0x70, 0x6C, 0x69, 0x74] = true
+    ∧ isSplitKey [0x73, 0x70, 0x6C, 0x61, 0x74] = false := by
+  refine ⟨by rfl, by rfl, by decide, by decide, by decide⟩
 
 /-- A parameter of struct type split over a map (`x = split {"k": {a: 1}}`)
 is converted at `map<STRUCT>`: the outer literal stays a map literal and every
@@ -324,7 +338,7 @@ array is always expressible as `x = split [...]`. -/
 theorem split_array_printable (t : TypeId) (v : J) (r : JList) (a : Arg)
     (h : buildBinding true t (.obj (.cons splitKey (.arr (.cons v r)) .nil)) = some a) :
     a.printable = true := by
-  simp only [buildBinding, if_true, JKvs.find, convertSplit, splitSourceType, convert, ofJ, ofJList] at h
+  simp only [buildBinding, if_true, JKvs.findSplit, isSplitKey_splitKey, convertSplit, splitSourceType, convert, ofJ, ofJList] at h
   split at h
   · simp only [Option.map_some, fix, fixList, Option.some.injEq] at h
     subst h; rfl
